@@ -148,7 +148,13 @@ def conn (args : List String) : String × String :=
       | ["gb"] => (.orig, .present none)
       | ["gbfail", k] => (.orig, .present (some (k.toNat?.getD 0)))
       | _ => (.orig, .absent)
-    let hdr0 : Option Bytes := if hdr.startsWith "h:" then some (unhex (hdr.drop 2).toString) else none
+    -- `<hdr>[+b:<cap>:<max>]`: the initial Last-Event-ID header and an optional `Connection.Buffer(make([]byte, 0, cap), max)`
+    let hdrParts := hdr.splitOn "+"
+    let hdrH := hdrParts.headD "-"
+    let buf0 : Option (Nat × Int) := match (hdrParts.drop 1).headD "" |>.splitOn ":" with
+      | ["b", c, mx] => some (c.toNat?.getD 0, (parseInt? mx).getD 0)
+      | _ => none
+    let hdr0 : Option Bytes := if hdrH.startsWith "h:" then some (unhex (hdrH.drop 2).toString) else none
     let ps := ((hist.splitOn ";").filter (· != "-")).map parseAttempt ++ [{ kind := 'T', sub := '1' }]
     let timerWins (i : Nat) : Bool := decide (i < nA) || !retCtx
     -- model attempts: `cancelDuring` of `e<k>` needs the number of events the model's read dispatches;
@@ -162,12 +168,12 @@ def conn (args : List String) : String × String :=
           | 'V' => (l ++ [{ timerWins := timerWins i, out := .rejected, cancelDuring := cancelDuringOf p 0,
                             cancelAfter := p.bang, draw := i }], i + 1, id)
           | _ =>
-            let r := implRun true id (sourceOf p) none
+            let r := implRun true id (sourceOf p) buf0
             (l ++ [{ timerWins := timerWins i, out := .stream (sourceOf p) (p.sub == 'C' || p.sub == 'K'),
                      cancelDuring := cancelDuringOf p (countEv r.1), cancelAfter := p.bang, draw := i }],
              i + 1, GoSSE.Spec.Client.lastDispatched id r.1)) ([], i0, id0)).1
     let h := mk ps 0 []
-    let c : Conn := { req := { header := hdr0, body := body0, getBody := gb } }
+    let c : Conn := { req := { header := hdr0, body := body0, getBody := gb }, buf := buf0 }
     let m := connect cfg fl c 0 (boolOf done0) h
     -- specification attempts
     let sc := scfgOf b
